@@ -11,7 +11,8 @@ func (p *Pool) Send(ctx context.Context, e Event) {
 	p.sendWg.Add(1)
 	defer p.sendWg.Done()
 
-	if p.ctx.Err() != nil {
+	// Nothing to send to before the first Run and after Stop.
+	if p.ctx == nil || p.ctx.Err() != nil {
 		return
 	}
 
